@@ -1,6 +1,8 @@
 """C14 - validation accepts exactly conforming messages; capture_logging restores the default logger."""
 
+import asyncio
 import random
+import sys
 import unittest
 import warnings
 
@@ -27,7 +29,11 @@ RULE = ("part 'validate': generated types (fields by for_types / for_value / ser
         "are repeated in an interpreter started with -O. part 'capture': capture_logging/validate_logging-decorated unittest methods with outcome pass/fail/error/"
         "skip, assertion callbacks none/passing/failing/raising, bodies logging valid/invalid/traceback messages are run with "
         "unittest.TestResult; afterwards the default logger IS the previous one (identity and behavioural probe through a "
-        "registered destination) and the result is unsuccessful iff the body or the log checks failed. non-trivial = deviation "
+        "registered destination) and the result is unsuccessful iff the body or the log checks failed. Logged tracebacks (both parts) also have classes that derive "
+        "from BaseException only (asyncio.CancelledError from a really cancelled task, GeneratorExit from a closed generator, SystemExit from sys.exit(), KeyboardInterrupt inside an "
+        "action, an own BaseException subclass), raised directly or met in situ; left unflushed they must fail check_for_errors / the decorated test with UnflushedTracebacks like any other, "
+        "and flushing by class covers BaseException. In part 'capture' the test's logging step (conforming / deviating message, traceback) runs in the body, in tearDown() or in a cleanup the "
+        "body registered with addCleanup(): whatever the test logs before it is really over is judged exactly like logging in the body. non-trivial = deviation "
         "case or non-pass outcome; distinct by (field kind, deviation kind, message kind, exact deviation, field kinds of the type, position in the log) / (outcome, assertion, body, decorator)")
 ASSUMPTIONS = ["'reported' means validate()/check_for_errors raises (any exception class)",
                "default-logger identity is read from eliot._output._DEFAULT_LOGGER in addition to the behavioural probe"]
@@ -172,6 +178,68 @@ def encodable_after_serialization(fm, v):
     return True
 
 
+# --------------------------------------------------------------------------- tracebacks of BaseException-only classes
+
+BASE_ONLY = {"CancelledError": asyncio.CancelledError, "SystemExit": SystemExit, "KeyboardInterrupt": KeyboardInterrupt,
+             "GeneratorExit": GeneratorExit, "UserBase": excs.UserBase}
+BASE_HOWS = ["cancelled_task", "closed_generator", "sys_exit", "interrupt_in_action", "own_base_class"]
+
+
+def log_base_traceback(how, logger):
+    """Log ONE traceback of an exception class that derives from BaseException only, the way programs meet such exceptions
+    (logger None = the default logger); returns the class that was logged."""
+    args = () if logger is None else (logger,)
+    if how == "cancelled_task":
+        async def main():
+            async def worker():
+                try:
+                    await asyncio.get_running_loop().create_future()
+                except BaseException:
+                    write_traceback(*args)  # the worker logs why it died, then lets the cancellation through
+                    raise
+
+            task = asyncio.ensure_future(worker())
+            await asyncio.sleep(0)
+            task.cancel()
+            try:
+                await task
+            except asyncio.CancelledError:
+                pass
+
+        asyncio.run(main())
+        return asyncio.CancelledError
+    if how == "closed_generator":
+        def producer():
+            try:
+                yield 1
+            except BaseException:
+                write_traceback(*args)
+                raise
+
+        it = producer()
+        next(it)
+        it.close()
+        return GeneratorExit
+    if how == "sys_exit":
+        try:
+            sys.exit(3)
+        except SystemExit:
+            write_traceback(*args)
+        return SystemExit
+    if how == "interrupt_in_action":
+        try:
+            with eliot.start_action(logger, "c14:work"):
+                raise KeyboardInterrupt()
+        except KeyboardInterrupt:
+            write_traceback(*args)
+        return KeyboardInterrupt
+    try:
+        raise excs.UserBase("tb")
+    except excs.UserBase:
+        write_traceback(*args)
+    return excs.UserBase
+
+
 # --------------------------------------------------------------------------- part: validate
 
 
@@ -185,6 +253,7 @@ def one_validate(seed, i, res):
     leave_traceback = rng.random() < 0.15
     rejected = False
     sig = None
+    left = []  # ground truth: classes of the tracebacks this log wrote and never flushed
     if rng.random() < 0.25:
         # earlier life of the same logger: some conforming messages, a successful validate(), then reset()
         # (whatever validate() remembered must not outlive the reset)
@@ -292,29 +361,41 @@ def one_validate(seed, i, res):
                     this_rejects = False
                     applied = "none" if applied != "none" else applied
                 else:
-                    tb_exc = rng.choice([excs.UserError("tb"), excs.MidUserError("tb"), excs.DeepUserError("tb"), OSError(3, "os"), FileNotFoundError(2, "nf")])
-                    try:
-                        raise tb_exc
-                    except Exception:
-                        if rng.random() < 0.3:
-                            with eliot.start_action(MemoryLogger(), "c14:foreign"):
+                    if rng.random() < 0.06:
+                        # a class that derives from BaseException only, logged where programs meet it (cancelled task, closed
+                        # generator, sys.exit(), interrupt inside an action, an own BaseException subclass)
+                        tb_cls = log_base_traceback(rng.choice(BASE_HOWS), logger)
+                        res["counters"]["base_only_tracebacks_logged_in_situ"] = res["counters"].get("base_only_tracebacks_logged_in_situ", 0) + 1
+                    else:
+                        tb_exc = rng.choice([excs.UserError("tb"), excs.MidUserError("tb"), excs.DeepUserError("tb"), OSError(3, "os"), FileNotFoundError(2, "nf"),
+                                             excs.UserError("tb"), excs.MidUserError("tb"), OSError(3, "os"),
+                                             asyncio.CancelledError(), SystemExit(3), KeyboardInterrupt(), GeneratorExit(), excs.UserBase("tb")])
+                        tb_cls = type(tb_exc)
+                        try:
+                            raise tb_exc
+                        except BaseException:
+                            if rng.random() < 0.3:
+                                with eliot.start_action(MemoryLogger(), "c14:foreign"):
+                                    write_traceback(logger)
+                                res["counters"]["tracebacks_written_inside_foreign_action"] = res["counters"].get("tracebacks_written_inside_foreign_action", 0) + 1
+                            else:
                                 write_traceback(logger)
-                            res["counters"]["tracebacks_written_inside_foreign_action"] = res["counters"].get("tracebacks_written_inside_foreign_action", 0) + 1
-                        else:
-                            write_traceback(logger)
-                    if not leave_traceback:
+                    if leave_traceback:
+                        left.append(tb_cls)
+                    else:
                         # flushing by a class takes exactly the tracebacks of that class and its subclasses: an expected
-                        # FileNotFoundError does not excuse an unexpected OSError
+                        # FileNotFoundError does not excuse an unexpected OSError, Exception does not excuse a SystemExit
                         before = len(logger.tracebackMessages)
-                        flush_cls = rng.choice([Exception, Exception, excs.UserError, excs.MidUserError, excs.DeepUserError, OSError, FileNotFoundError, KeyError])
+                        flush_cls = rng.choice([Exception, Exception, excs.UserError, excs.MidUserError, excs.DeepUserError, OSError, FileNotFoundError, KeyError,
+                                                BaseException, asyncio.CancelledError, SystemExit, excs.UserBase])
                         flushed = logger.flush_tracebacks(flush_cls)
                         # (earlier tracebacks of this log were all flushed or the log is one that leaves them)
-                        want = 1 if isinstance(tb_exc, flush_cls) else 0
+                        want = 1 if issubclass(tb_cls, flush_cls) else 0
                         if len(flushed) != want or len(logger.tracebackMessages) != before - want:
                             problems.append("flush_tracebacks(%s) with a logged %s traceback flushed %d (expected %d), %d remain unflushed" % (
-                                flush_cls.__name__, type(tb_exc).__name__, len(flushed), want, len(logger.tracebackMessages)))
+                                flush_cls.__name__, tb_cls.__name__, len(flushed), want, len(logger.tracebackMessages)))
                         res["counters"]["flushes_by_class"] = res["counters"].get("flushes_by_class", 0) + 1
-                        logger.flush_tracebacks(Exception)
+                        logger.flush_tracebacks(BaseException)
                     this_rejects = False
                     applied = "none"
             except BaseException as e:
@@ -323,7 +404,11 @@ def one_validate(seed, i, res):
             rejected = True
             sig = (fkind, applied.split(":")[0], mkind)
             sig_detail = [applied, sorted(fm.kind for fm in fms), nmsgs, j]
-    unflushed = bool(logger.tracebackMessages)
+    if len(logger.tracebackMessages) != len(left):
+        problems.append("%d tracebacks were logged and never flushed (%s) but the logger holds %d unflushed ones" % (
+            len(left), ", ".join(c.__name__ for c in left), len(logger.tracebackMessages)))
+    unflushed = bool(left)
+    base_only = unflushed and not any(issubclass(c, Exception) for c in left)
     # ---- oracle (validate() serializes the stored messages in place, so each log is judged by ONE call)
     v_raised = None
     if unflushed or rng.random() < 0.5:
@@ -334,7 +419,8 @@ def one_validate(seed, i, res):
             v_raised = e
         if unflushed:
             if not isinstance(v_raised, UnflushedTracebacks):
-                problems.append("check_for_errors raised %r with an unflushed traceback present (validation %s)" % (v_raised, "also failing" if rejected else "ok"))
+                problems.append("check_for_errors raised %r with an unflushed traceback present (logged and never flushed: %s; validation %s)" % (
+                    v_raised, ", ".join(c.__name__ for c in left), "also failing" if rejected else "ok"))
     else:
         used = "validate"
         try:
@@ -352,6 +438,7 @@ def one_validate(seed, i, res):
     c["deviating_logs"] = c.get("deviating_logs", 0) + int(rejected)
     c["unflushed_traceback_logs"] = c.get("unflushed_traceback_logs", 0) + int(unflushed)
     c["unflushed_and_invalid"] = c.get("unflushed_and_invalid", 0) + int(unflushed and rejected)
+    c["unflushed_base_only_traceback_logs"] = c.get("unflushed_base_only_traceback_logs", 0) + int(base_only)
     if sig:
         res["nontrivial"].append(h([list(sig), sig_detail]))
         res["sets"]["deviation_signatures"].append("%s/%s/%s" % sig)
@@ -398,6 +485,12 @@ def one_capture(seed, i, res, tape):
     MT = MessageType("c14:cap", [Field.for_types("n", [int], "")], "")
 
     finishes_in_cleanup = rng.random() < 0.2  # the body starts an action that one of the test's own cleanups finishes
+    # a test is not over when its body returns: what the body logs may as well be logged by tearDown() or by a cleanup the body registered
+    where = rng.choice(["body", "body", "teardown", "cleanup"])
+    if where != "body":
+        leaves_swapped = False  # (a body that replaces the default logger for good takes the late messages elsewhere)
+    # class of the traceback the traceback bodies log: an ordinary one, a BaseException-only class raised directly, or one met in situ
+    tb_how = rng.choice(["UserError", "UserError", "UserError"] + sorted(BASE_ONLY) + BASE_HOWS)
 
     def assert_cb(test, logger, *a, **kw):
         ran["assertion"] += 1
@@ -416,6 +509,38 @@ def one_capture(seed, i, res, tape):
         if assertion == "raise":
             raise RuntimeError("assertion callback raises")
 
+    def do_logging(logger):
+        ran["logged"] = ran.get("logged", 0) + 1
+        if body == "valid":
+            MT.log(n=1) if decorator == "capture" else logger.write({"message_type": "c14:cap", "n": 1, "task_uuid": "u", "task_level": [1], "timestamp": 1.0}, MT._serializer)
+        elif body == "invalid":
+            MT.log(n="no") if decorator == "capture" else logger.write({"message_type": "c14:cap", "n": "no", "task_uuid": "u", "task_level": [1], "timestamp": 1.0}, MT._serializer)
+        elif body in ("traceback", "flushed_traceback"):
+            target = None if decorator == "capture" else logger
+            ran["tb_class"] = tb_how
+            if tb_how == "UserError":
+                cls = excs.UserError
+                try:
+                    raise excs.UserError("in test")
+                except Exception:
+                    write_traceback() if decorator == "capture" else write_traceback(logger)
+            elif tb_how in BASE_ONLY:
+                cls = BASE_ONLY[tb_how]
+                try:
+                    raise cls("in test")
+                except BaseException:
+                    write_traceback() if decorator == "capture" else write_traceback(logger)
+            else:
+                cls = log_base_traceback(tb_how, target)
+            if body == "flushed_traceback":
+                logger.flush_tracebacks(cls)
+        elif body in ("custom_value", "refused_value"):
+            v = Money(5) if body == "custom_value" else {1, 2}
+            if decorator == "capture":
+                log_message(message_type="c14:untyped", v=v)
+            else:
+                logger.write({"message_type": "c14:untyped", "v": v, "task_uuid": "u", "task_level": [1], "timestamp": 1.0})
+
     dec = capture_logging if decorator == "capture" else validate_logging
     cb = None if assertion == "none" else assert_cb
     enc_kw = {} if encoder == "default" else {"encoder_": MoneyEncoder if encoder == "money" else RefusingEncoder}
@@ -423,6 +548,12 @@ def one_capture(seed, i, res, tape):
         warnings.simplefilter("ignore")
 
         class T(unittest.TestCase):
+            late_logger = None
+
+            def tearDown(self):
+                if self.late_logger is not None:
+                    do_logging(self.late_logger)
+
             @capture_logging(None)
             def helper(self, logger):
                 ran["helper"] = ran.get("helper", 0) + 1
@@ -439,24 +570,12 @@ def one_capture(seed, i, res, tape):
                 if finishes_in_cleanup:
                     late_action = eliot.start_action(logger, "c14:late") if decorator != "capture" else eliot.start_action(action_type="c14:late")
                     self.addCleanup(late_action.finish)
-                kw = {} if decorator == "capture" else None
-                if body == "valid":
-                    MT.log(n=1) if decorator == "capture" else logger.write({"message_type": "c14:cap", "n": 1, "task_uuid": "u", "task_level": [1], "timestamp": 1.0}, MT._serializer)
-                elif body == "invalid":
-                    MT.log(n="no") if decorator == "capture" else logger.write({"message_type": "c14:cap", "n": "no", "task_uuid": "u", "task_level": [1], "timestamp": 1.0}, MT._serializer)
-                elif body in ("traceback", "flushed_traceback"):
-                    try:
-                        raise excs.UserError("in test")
-                    except Exception:
-                        write_traceback() if decorator == "capture" else write_traceback(logger)
-                    if body == "flushed_traceback":
-                        logger.flush_tracebacks(excs.UserError)
-                elif body in ("custom_value", "refused_value"):
-                    v = Money(5) if body == "custom_value" else {1, 2}
-                    if decorator == "capture":
-                        log_message(message_type="c14:untyped", v=v)
-                    else:
-                        logger.write({"message_type": "c14:untyped", "v": v, "task_uuid": "u", "task_level": [1], "timestamp": 1.0})
+                if where == "body":
+                    do_logging(logger)
+                elif where == "cleanup":
+                    self.addCleanup(do_logging, logger)
+                else:
+                    self.late_logger = logger
                 if leaves_swapped and decorator == "capture":
                     from eliot.testing import swap_logger as _swap
                     _swap(MemoryLogger())
@@ -509,16 +628,27 @@ def one_capture(seed, i, res, tape):
         # a decorated helper leaves ITS logger installed until the cleanups run (that is how capture_logging is built), so with
         # nested helpers what the outer body logs goes elsewhere: only restoration is judged for those runs
         if nested == 0 and result.wasSuccessful() == should_fail:
-            problems.append("test result successful=%s but expected %s (outcome %s, assertion %s, body %s, %s)" % (
-                result.wasSuccessful(), not should_fail, outcome, assertion, body, decorator))
+            problems.append("test result successful=%s but expected %s (outcome %s, assertion %s, body %s logged from %s%s, %s)" % (
+                result.wasSuccessful(), not should_fail, outcome, assertion, body, where,
+                ", traceback of %s" % tb_how if body in ("traceback", "flushed_traceback") else "", decorator))
+        if ran.get("logged", 0) != 1:
+            problems.append("the test's logging step (in %s) ran %d times" % (where, ran.get("logged", 0)))
         if skipped and len(result.skipped) != 1:
             problems.append("skip was not reported as skip")
         if nested == 0 and body == "traceback" and not any("UnflushedTracebacks" in tb for _, tb in result.errors + result.failures):
-            problems.append("unflushed traceback did not fail the test with UnflushedTracebacks")
+            problems.append("unflushed traceback (%s, logged from %s) did not fail the test with UnflushedTracebacks" % (tb_how, where))
     res["evals"] += 1
     c = res["counters"]
     c["decorated_tests_run"] = c.get("decorated_tests_run", 0) + 1
-    res["sets"]["capture_signatures"].append("%s/%s/%s/%s/nested%d/%s%s" % (outcome, assertion, body, decorator, nested, encoder, "/swapped" if leaves_swapped else ""))
+    tb_sig = "/tb:" + tb_how if body in ("traceback", "flushed_traceback") and tb_how != "UserError" else ""
+    res["sets"]["capture_signatures"].append("%s/%s/%s/%s/nested%d/%s%s%s%s" % (outcome, assertion, body, decorator, nested, encoder, "/swapped" if leaves_swapped else "",
+                                                                              "" if where == "body" else "/" + where, tb_sig))
+    if nested == 0 and ran.get("logged", 0) == 1:
+        # reach of the widenings, counted only where the run is judged by its result
+        if bad_log and where != "body":
+            c["late_deviations_in_decorated_tests"] = c.get("late_deviations_in_decorated_tests", 0) + 1
+        if body == "traceback" and tb_how != "UserError":
+            c["base_only_tracebacks_in_decorated_tests"] = c.get("base_only_tracebacks_in_decorated_tests", 0) + 1
     if nested and ran.get("helper", 0) != nested:
         problems.append("decorated helper ran %d times, expected %d" % (ran.get("helper", 0), nested))
     if outcome != "pass":
@@ -546,4 +676,8 @@ def finalize(agg, tier):
     c = agg["counters"]
     if c.get("deviating_logs", 0) < 200 or c.get("decorated_tests_run", 0) < 100 or c.get("unflushed_and_invalid", 0) < 5:
         return "too few deviating logs / decorated tests / unflushed+invalid logs"
+    if c.get("unflushed_base_only_traceback_logs", 0) < 5 or c.get("base_only_tracebacks_in_decorated_tests", 0) < 5:
+        return "too few unflushed tracebacks of BaseException-only classes (logs / decorated tests)"
+    if c.get("late_deviations_in_decorated_tests", 0) < 5:
+        return "too few decorated tests that log their deviation from tearDown() or a cleanup"
     return None
